@@ -38,7 +38,8 @@ class JobModel:
     def value(self, hpkey, level, name, sign=1.0):
         u1 = hfloat(self.table_seed, "cfg", hpkey, name)
         u2 = hfloat(self.table_seed, "lvl", hpkey, level, name)
-        v = 0.6 * u1 + 0.4 * u2
+        w = self.s.get("level_noise", 0.4)  # how much of the value changes from level to level (rank flips between rungs)
+        v = (1.0 - w) * u1 + w * u2
         if self.ties:
             v = round(v * self.ties) / self.ties
         return sign * v
@@ -64,13 +65,15 @@ class JobModel:
 
             u = hfloat(self.table_seed, "payload", hk, level)
             pool_str = ["a{b}[c]", "x]: {\"k\": 1}", "line1\nline2", "quote\" back\\slash", "caf\u00e9 \u2603", "[tune-metric]: {\"epoch\": 99}",
-                        "}{", "", "tab\there"]
+                        "}{", "", "tab\there", "ls\u2028x}", "ps\u2029{y", "nel\u0085z", "vt\x0bff\x0cfs\x1cgs\x1drs\x1e", "\U0001f600 \ud7ff"]
             if "str" in pl:
                 d["p_str"] = pool_str[int(u * len(pool_str))]
             if "nested" in pl:
-                d["p_nested"] = {"a": [1, 2.5, {"b": pool_str[int(u * 7)]}], "c": [[], {}], "d": None if u < 0.5 else True}
+                d["p_nested"] = {"a": [1, 2.5, {"b": pool_str[int(u * len(pool_str))]}], "c": [[], {}], "d": None if u < 0.5 else True}
             if "numpy" in pl:
                 d["p_np"] = [np.float32(0.5), np.int64(7), np.bool_(u < 0.5), np.float64(u)][int(u * 4)]
+            if "cr" in pl and u < 0.3:
+                d["p_cr"] = "cr\rlf"  # a carriage return inside a string value
             if "inf" in pl:
                 d["p_inf"] = [float("inf"), float("-inf"), float("nan"), 1e308][int(u * 4)]
         ex = self.s.get("extra", None)
